@@ -220,6 +220,10 @@ func decodePayload(content []byte, payload *jwt.MapClaims) error {
 	if err := decoder.Decode(payload); err != nil {
 		return err
 	}
+	if *payload == nil {
+		// the JSON text null decodes into a nil map without an error
+		return errors.New("payload is not a JSON object")
+	}
 	if _, err := decoder.Token(); err != io.EOF {
 		return errors.New("invalid character after top-level value")
 	}
